@@ -72,12 +72,17 @@ struct Cont {
     virtual std::string snapshot() = 0;
     virtual const char *invariant() = 0;
     virtual void destroy() = 0;
+    // the caller's own lock()/unlock() around a compound operation (false: the kind has no public lock)
+    virtual bool outer_lock() { return false; }
+    virtual void outer_unlock() {}
 };
 #define VOIDOP(stmt) do { errno = 0; stmt; r.failed = (errno == ENOMEM); } while (0)
 
 // ---- tree
 struct TreeC : Cont {
     qtreetbl_t *t = nullptr;
+    bool outer_lock() { qtreetbl_lock(t); return true; }
+    void outer_unlock() { qtreetbl_unlock(t); }
     const char *kind() { return "qtreetbl"; }
     bool create(bool ts) { t = qtreetbl(ts ? QTREETBL_THREADSAFE : 0); return t != nullptr; }
     void *mutex() { return t ? t->qmutex : nullptr; }
@@ -120,6 +125,8 @@ struct TreeC : Cont {
 // ---- hashtbl
 struct HashC : Cont {
     qhashtbl_t *t = nullptr; size_t range;
+    bool outer_lock() { qhashtbl_lock(t); return true; }
+    void outer_unlock() { qhashtbl_unlock(t); }
     HashC(size_t r) : range(r) {}
     const char *kind() { return "qhashtbl"; }
     bool create(bool ts) { t = qhashtbl(range, ts ? QHASHTBL_THREADSAFE : 0); return t != nullptr; }
@@ -192,6 +199,8 @@ struct HarrC : Cont {
 // ---- listtbl
 struct LtblC : Cont {
     qlisttbl_t *t = nullptr; int options;
+    bool outer_lock() { qlisttbl_lock(t); return true; }
+    void outer_unlock() { qlisttbl_unlock(t); }
     LtblC(int o) : options(o) {}
     const char *kind() { return "qlisttbl"; }
     bool create(bool ts) { t = qlisttbl(options | (ts ? QLISTTBL_THREADSAFE : 0)); return t != nullptr; }
@@ -240,6 +249,8 @@ struct ListC : Cont {
     ListC(int w) : which(w) {}
     const char *kind() { return which == 0 ? "qlist" : which == 1 ? "qqueue" : which == 2 ? "qstack" : "qgrow"; }
     qlist_t *in() { return which == 0 ? l : which == 1 ? (q ? q->list : nullptr) : which == 2 ? (s ? s->list : nullptr) : (g ? g->list : nullptr); }
+    bool outer_lock() { if (!in()) return false; qlist_lock(in()); return true; }
+    void outer_unlock() { qlist_unlock(in()); }
     bool create(bool ts) { int o = ts ? QLIST_THREADSAFE : 0; if (which == 0) l = qlist(o); else if (which == 1) q = qqueue(o); else if (which == 2) s = qstack(o); else g = qgrow(o); return l || q || s || g; }
     void *mutex() { return in() ? in()->qmutex : nullptr; }
     std::vector<const char *> ops() {
@@ -316,6 +327,8 @@ struct ListC : Cont {
 // ---- vector
 struct VecC : Cont {
     qvector_t *v = nullptr; size_t objsize, cap; int policy;
+    bool outer_lock() { qvector_lock(v); return true; }
+    void outer_unlock() { qvector_unlock(v); }
     VecC(size_t os, size_t c, int p) : objsize(os), cap(c), policy(p) {}
     const char *kind() { return "qvector"; }
     bool create(bool ts) { v = qvector(cap, objsize, policy | (ts ? QVECTOR_THREADSAFE : 0)); return v != nullptr; }
@@ -409,6 +422,9 @@ Args gen_args(Src &s) {
     static const char *keys[] = {"a", "b", "c", "d", "e", "key", "Key", "zz", "m", "n1"};
     a.key = keys[s.range(0, 9)];
     size_t vl = s.pick({4, 2, 1}) == 0 ? (size_t)s.range(1, 6) : (size_t)s.range(7, 90);
+    // values whose formatted form sits around the 1024 * 2^k sizes of the library's formatting buffer
+    // (putstrf / addstrf then make extra allocations, each of which gets its turn to fail)
+    if (s.chance(1, 8)) { static const size_t edge[] = {1024, 1024, 2048, 4096}; vl = edge[s.range(0, 3)] - 12 + (size_t)s.range(0, 16); }
     uint32_t x = (uint32_t)s.u8() + 7;
     for (size_t i = 0; i < vl; i++) { x = x * 1103515245u + 12345u; a.val.push_back((char)('a' + (x >> 16) % 26)); }
     a.idx = s.range(-4, 5); a.newmem = s.boolean(); a.sub = (int)s.range(0, 255); a.num = s.range(-1000000, 1000000);
@@ -467,7 +483,7 @@ void run_case(Src &s, Ctx &c) {
     vf_hook_trylock = hook_trylock; vf_hook_unlock = hook_unlock; vf_hook_usleep = hook_usleep;
     g_depth.clear();
     vf_ledger_on = 1;
-    long trials = 0, nt = 0, injected_total = 0;
+    long trials = 0, nt = 0, injected_total = 0, held_trials = 0;
 
     // ---- constructor under every allocation index
     {
@@ -504,7 +520,11 @@ void run_case(Src &s, Ctx &c) {
             Cont *t2 = T.build(kind, cfg, ts, prefix);
             struct D { Cont *&p; ~D() { if (p) { p->destroy(); delete p; p = nullptr; } } } d2{t2};
             std::string before = t2->snapshot();
-            void *mx2 = t2->mutex(); long depth0 = mx2 ? g_depth[mx2] : 0;
+            void *mx2 = t2->mutex();
+            // C14, a third of the trials: the caller itself holds the container's lock around the call (the
+            // documented way to make a compound operation atomic); the call must leave that depth alone
+            bool held = m14 && mx2 && s.chance(1, 3) && t2->outer_lock();
+            long depth0 = mx2 ? g_depth[mx2] : 0;
             arm_fail(0); vf_alloc_count = 0;
             Res r2;
             int sig0 = guarded([&] { r2 = t2->run(op, a); }, 5);
@@ -514,7 +534,8 @@ void run_case(Src &s, Ctx &c) {
             trials++;
             if (m14 && mx2) {
                 long dep = g_depth[mx2];
-                if (dep != depth0) c.fail(LOCK, (std::string("fault:lock-depth:") + kname + ":" + opn[(size_t)op]).c_str(), "%s.%s returned with the lock at depth %ld (entered at %ld); outcome: %s", kname.c_str(), opn[(size_t)op], dep, depth0, r2.failed ? "error/absent" : "success");
+                if (dep != depth0) c.fail(LOCK, (std::string("fault:lock-depth:") + kname + ":" + opn[(size_t)op]).c_str(), "%s.%s returned with the lock at depth %ld (entered at %ld%s); outcome: %s", kname.c_str(), opn[(size_t)op], dep, depth0, held ? ", the caller holding the lock" : "", r2.failed ? "error/absent" : "success");
+                if (held) { t2->outer_unlock(); held_trials++; if (g_depth[mx2] != depth0 - 1) c.fail(LOCK, (std::string("fault:lock-depth:") + kname + ":" + opn[(size_t)op]).c_str(), "after %s.%s under the caller's lock and the caller's unlock the depth is %ld, expected %ld", kname.c_str(), opn[(size_t)op], g_depth[mx2], depth0 - 1); }
                 int pr = probe(mx2);
                 if (pr != 0) c.fail(LOCK, (std::string("fault:lock-held:") + kname + ":" + opn[(size_t)op]).c_str(), "after %s.%s returned another thread's trylock on the container mutex fails with %d", kname.c_str(), opn[(size_t)op], pr);
                 if (r2.failed) nt++;
@@ -527,7 +548,9 @@ void run_case(Src &s, Ctx &c) {
                 size_t live0 = vf_ledger_live();            // the undisturbed twin is still alive
                 Cont *t1 = T.build(kind, cfg, ts, prefix);
                 D d1{t1};
-                void *mx = t1->mutex(); long dep0 = mx ? g_depth[mx] : 0;
+                void *mx = t1->mutex();
+                bool held1 = held && mx && t1->outer_lock();
+                long dep0 = mx ? g_depth[mx] : 0;
                 Res r1;
                 arm_fail(kk, sticky);
                 int sig = guarded([&] { r1 = t1->run(op, a); }, 5);
@@ -535,11 +558,12 @@ void run_case(Src &s, Ctx &c) {
                 trials++; injected_total += inj;
                 const char *fdesc = sticky ? "every allocation" : "one allocation";
                 if (sig) { t1 = nullptr; c.fail(CRASH, (std::string("fault:crash:") + kname + ":" + opn[(size_t)op]).c_str(), "%s.%s crashed (signal %d) when allocation %ld%s of %ld failed (key=%s idx=%ld newmem=%d, state of %d ops)", kname.c_str(), opn[(size_t)op], sig, kk, sticky ? "+" : "", N, a.key.c_str(), a.idx, (int)a.newmem, plen); }
-                if (inj == 0) continue;
+                if (inj == 0) { if (held1) t1->outer_unlock(); continue; }
                 if (m14) {
                     if (mx) {
                         long dep = g_depth[mx];
-                        if (dep != dep0) c.fail(LOCK, (std::string("fault:lock-depth:") + kname + ":" + opn[(size_t)op]).c_str(), "%s.%s returned with the lock at depth %ld (entered at %ld) after allocation %ld%s of %ld failed", kname.c_str(), opn[(size_t)op], dep, dep0, kk, sticky ? "+" : "", N);
+                        if (dep != dep0) c.fail(LOCK, (std::string("fault:lock-depth:") + kname + ":" + opn[(size_t)op]).c_str(), "%s.%s returned with the lock at depth %ld (entered at %ld%s) after allocation %ld%s of %ld failed", kname.c_str(), opn[(size_t)op], dep, dep0, held1 ? ", the caller holding the lock" : "", kk, sticky ? "+" : "", N);
+                        if (held1) t1->outer_unlock();
                         int pr = probe(mx);
                         if (pr != 0) c.fail(LOCK, (std::string("fault:lock-held:") + kname + ":" + opn[(size_t)op]).c_str(), "after %s.%s returned (allocation %ld%s failed) another thread's trylock fails with %d", kname.c_str(), opn[(size_t)op], kk, sticky ? "+" : "", pr);
                     }
@@ -594,7 +618,7 @@ void run_case(Src &s, Ctx &c) {
     }
     // nothing may stay allocated once every container of the case has been released
     vf_hook_trylock = nullptr; vf_hook_unlock = nullptr; vf_hook_usleep = nullptr;
-    c.tag(("kind_" + kname).c_str()); c.tag("trials", (uint64_t)trials); c.tag("injected_failures", (uint64_t)injected_total);
+    c.tag(("kind_" + kname).c_str()); c.tag("trials", (uint64_t)trials); c.tag("injected_failures", (uint64_t)injected_total); if (held_trials) c.tag("trials_under_the_callers_own_lock", (uint64_t)held_trials);
     c.nontrivial = nt > 0;
     c.extra_hash = (uint64_t)kind;
 }
